@@ -56,6 +56,7 @@ struct OpInst {
   int32_t rep;        // number of times the call is repeated inside the operation
   void* st;           // prepared state (pool pointers, private inputs); owned by the controller
   int32_t cb_count;   // callable invocations so far (task-private)
+  int32_t iter;       // index of the current repetition of the call inside the operation (0..rep-1)
 };
 
 void reg(const OpDef* d);
